@@ -63,8 +63,15 @@ def proof_step(prop_id, cfg):
         if not os.path.exists(p):
             bad.append("%s: listed in _CoqProject but missing" % f)
             continue
+        stack = []
         for ln, s in enumerate(strip_comments(open(p).read()).splitlines(), 1):
-            if FORBIDDEN.search(s) or re.match(r"\s*(Variable|Hypothesis)\b", s) and "Section" not in open(p).read():
+            m = re.match(r"\s*(Section|Module(?:\s+Type)?)\s+(\w+)", s)
+            if m and ":=" not in s:
+                stack.append(m.group(1).split()[0])
+            elif re.match(r"\s*End\s+\w+\s*\.", s) and stack:
+                stack.pop()
+            in_section = "Section" in stack
+            if FORBIDDEN.search(s) or (re.match(r"\s*(Variables?|Hypothes[ie]s|Context)\b", s) and not in_section):
                 bad.append("%s:%d: %s" % (f, ln, s.strip()))
     if bad:
         res["log"] = "forbidden constructs:\n" + "\n".join(bad)
